@@ -275,6 +275,40 @@ fn value_lifecycle() {
     }
 }
 
+
+/// C06: len() / is_empty() agree with what is resident after removals from several threads.
+fn concurrent_removes() {
+    let c: Cache<u64, u64, TransparentKeyBuilder<u64>> = CacheBuilder::new_with_key_builder(64, 1_000_000, TransparentKeyBuilder::default()).set_buffer_size(64).set_cleanup_duration(HOUR).finalize().unwrap();
+    let c = Arc::new(c);
+    let n_threads = 2u64;
+    let per = 2u64;
+    for k in 0..n_threads * per + 2 {
+        assert!(c.insert(k, k, 1));
+    }
+    c.wait().unwrap();
+    let gate = Gate::new(n_threads as usize);
+    let hs: Vec<_> = (0..n_threads)
+        .map(|t| {
+            let (c, gate) = (c.clone(), gate.clone());
+            std::thread::spawn(move || {
+                gate.pass();
+                for i in 0..per {
+                    c.remove(&(t * per + i));
+                }
+            })
+        })
+        .collect();
+    for h in hs {
+        h.join().unwrap();
+    }
+    c.wait().unwrap();
+    let resident = (0..n_threads * per + 2).filter(|k| c.get(k).is_some()).count();
+    if c.len() != resident || c.is_empty() != (resident == 0) {
+        fail("C06", "M-len-disagrees-with-residents", format!("len() = {}, is_empty() = {}, {} keys retrievable", c.len(), c.is_empty(), resident));
+    }
+    let _ = c.close();
+}
+
 fn main() {
     let which = std::env::args().nth(1).unwrap_or_default();
     match which.as_str() {
@@ -283,6 +317,7 @@ fn main() {
         "metrics_many_threads" => metrics_many_threads(),
         "capacity_race" => capacity_race(),
         "value_lifecycle" => value_lifecycle(),
+        "concurrent_removes" => concurrent_removes(),
         other => {
             eprintln!("unknown scenario {:?}", other);
             std::process::exit(2);
